@@ -7,7 +7,7 @@ use crate::framework::*;
 use crate::refchess::Pos;
 use serde_json::json;
 
-pub const RULE: &str = "histories as in C02 (make / null move / take back, weighted toward promotions, e.p., castling, nested null moves); after every op the phase counter and the piece-square accumulator carried by the game must equal IncrementalEvalFields::init(board), and eval(game) must equal eval of the same position rebuilt from scratch (path independence). Non-trivial = history with a promotion, e.p. capture or castling followed by at least one take-back; distinct by (root, op list).";
+pub const RULE: &str = "histories as in C02 (make / null move / take back, weighted toward promotions, e.p., castling, nested null moves); after every op the phase counter and the piece-square accumulator carried by the game must equal IncrementalEvalFields::init(board), and eval(game) must equal eval of the same position rebuilt from scratch (path independence). A 'long_histories' part nests 1100-1500 plies deep before unwinding. Non-trivial = history with a promotion, e.p. capture or castling followed by at least one take-back; distinct by (root, op list).";
 
 struct Obs;
 
@@ -51,6 +51,18 @@ pub fn run(run: &mut Run) -> &'static str {
                 st.nontrivial_sample(json!({"root": root, "ops": ops}));
             } else {
                 st.sample(json!({"root": root, "ops": ops}));
+            }
+        }
+        Ok(())
+    });
+    let cases = run.tier.pick(320, 6_000);
+    run.proptest_part("long_histories", RULE, hist_case(4..120), cases, |case: &HistCase, st: &mut Stats| {
+        let mut obs = Obs;
+        if let Some((feat, root, ops)) = interpret(case, &Config::long(), st, &mut obs)? {
+            if feat.max_depth >= 1025 {
+                st.class("max_nesting_depth_reached_1025_or_more");
+                st.nontrivial(&(root.clone(), ops.len(), crate::framework::hash_of(&ops)));
+                st.nontrivial_sample(json!({"root": root, "ops": ops.len(), "max_depth": feat.max_depth}));
             }
         }
         Ok(())
